@@ -40,4 +40,35 @@ def handleRange (st : St) (op : String) (j : Json) : Option (D (St × Json)) :=
     return (st, match deleteRangeTarget S d f t with
       | some (a, b) => ok (eNats [a, b])
       | none => eRaises)
+  -- ---------------- the Fitter (PM/Fitter.lean) and the order-faithful fill / wrap choices (PM/FillOrder.lean)
+  | "replaceStep" => some do
+    let S ← getSchema st j
+    let d ← node (← field j "doc")
+    let f ← nat (← field j "from")
+    let t ← nat (← field j "to")
+    let sl ← slice (← field j "slice")
+    return (st, match replaceStep S d f t sl with
+      | .ok none => ok (Json.arr #[Json.str "none"])
+      | .ok (some s) => ok (Json.arr #[Json.str "step", eStep s])
+      | .error .raises => eRaises
+      | .error .outOfFuel => Json.mkObj [("err", "outOfFuel")]
+      | .error .negInsert => Json.mkObj [("err", "negInsert")])
+  | "fillBeforeO" => some do
+    let S ← getSchema st j
+    let dfa := S.dfa (← nat (← field j "ty"))
+    let q ← nat (← field j "q")
+    let after ← listOf nat (← field j "after")
+    let toEnd ← bool (← field j "toEnd")
+    return (st, match fillBeforeNodes S dfa q after toEnd with
+      | some (some ns) => ok (eFrag ns)
+      | some none => ok Json.null
+      | none => eRaises)
+  | "findWrappingO" => some do
+    let S ← getSchema st j
+    let dfa := S.dfa (← nat (← field j "ty"))
+    let q ← nat (← field j "q")
+    let target ← nat (← field j "target")
+    return (st, match findWrappingTypes S dfa q target with
+      | some l => ok (eNats l)
+      | none => ok Json.null)
   | _ => none
